@@ -440,6 +440,9 @@ def _execute(case, res, tmp):
                 if not viewers:
                     continue
                 v = viewers.pop(op[1] % len(viewers))
+                if v['kind'] != 'generic':
+                    viewers.append(v)       # the non-Qt matplotlib viewers of glue-core do not implement close()
+                    continue
                 v['v'].close()
                 if v['v'] in w.app._viewers:
                     w.app._viewers.remove(v['v'])
